@@ -72,11 +72,22 @@ out_n = z3.Function("out_n", DiscS, I)
 rts_member = z3.Function("rts_member", DiscS, NameSetS)  # io.residual_to_state_variable
 rts_vals = z3.Function("rts_vals", DiscS, z3.ArraySort(StrS, StrS))
 rts_n = z3.Function("rts_n", DiscS, I)
-is_continuous = z3.Function("is_continuous", DiscS, StrS, B)  # grammar.data_converter.is_continuous(name)
+is_continuous = z3.Function("is_continuous", DiscS, B, StrS, B)  # (discipline, input grammar?, name)  # grammar.data_converter.is_continuous(name)
 
 DataM, DataV = z3.ArraySort(StrS, B), z3.ArraySort(StrS, ValS)
 exec_member = z3.Function("exec_member", DiscS, DataM, DataV, DataM)  # keys / values of d.execute(data)
 exec_vals = z3.Function("exec_vals", DiscS, DataM, DataV, DataV)
+
+NAME_LIST = TList(TStr)
+lset = z3.Function("lset", NAME_LIST.sort(), NameSetS)  # the set of the elements of a list of names (defined: lset_definition)
+
+
+def lset_definition():
+    t = z3.Const("t!ls", NAME_LIST.sort())
+    k = z3.Const("k!ls", StrS)
+    i = z3.Int("i!ls")
+    return z3.ForAll([t, k], lset(t)[k] == z3.Exists([i], z3.And(0 <= i, i < ln(t), le(t, i) == k)), patterns=[lset(t)[k]])
+
 
 DIFF_S = z3.ArraySort(DiscS, NameSetS)  # discipline -> set of differentiated input (output) names
 declare_ghost("c09_diff_in", DIFF_S)
@@ -84,6 +95,16 @@ declare_ghost("c09_diff_out", DIFF_S)
 
 NXG = "networkx.DiGraph"
 NXC = "networkx.DiGraph[condensation]"
+
+
+def _forall(vs, body, patterns=None):
+    """ForAll with explicit triggers when z3 accepts them (a select on a lambda is not a valid pattern)."""
+    if patterns:
+        try:
+            return z3.ForAll(vs, body, patterns=patterns)
+        except z3.Z3Exception:
+            pass
+    return z3.ForAll(vs, body)
 
 
 def rel(s):
@@ -120,9 +141,9 @@ def reach_axioms(E):
     """Sound consequences of 'reach(E) is the reflexive-transitive closure of E' (closure axioms)."""
     u, v, w = z3.Consts("u!ra v!ra w!ra", DiscS)
     return [
-        z3.ForAll([u], reach(E, u, u), patterns=[reach(E, u, u)]),
-        z3.ForAll([u, v], z3.Implies(E[u][v], reach(E, u, v)), patterns=[E[u][v]]),
-        z3.ForAll([u, v, w], z3.Implies(z3.And(reach(E, u, v), reach(E, v, w)), reach(E, u, w)), patterns=[z3.MultiPattern(reach(E, u, v), reach(E, v, w))]),
+        _forall([u], reach(E, u, u), patterns=[reach(E, u, u)]),
+        _forall([u, v], z3.Implies(E[u][v], reach(E, u, v)), patterns=[E[u][v]]),
+        _forall([u, v, w], z3.Implies(z3.And(reach(E, u, v), reach(E, v, w)), reach(E, u, w)), patterns=[z3.MultiPattern(reach(E, u, v), reach(E, v, w))]),
     ]
 
 
@@ -332,8 +353,30 @@ class GraphModels:
         st = ex.st
         if name.startswith("disc."):
             return self._disc_method(ex, recv, name[5:], args, kwargs, lineno)
+        if name == "extend" and isinstance(recv, Ref) and isinstance(st.heap[recv.id], ListObj) and len(args) == 1 and \
+                (st.heap[recv.id].t == TStr and not st.heap[recv.id].is_empty_literal):
+            # list-of-names.extend(iterable): the base model, plus the (derivable) fact on the *set* of elements
+            o = st.heap[recv.id]
+            old_term = NAME_LIST.dt.mk(o.n, o.elems)
+            mb = ex.models._iter_member(ex, args[0], TStr)
+            # same list as the base model (old elements kept, the iterable's elements appended in iteration order), but
+            # described by a fresh array + axioms rather than by a lambda term (nested lambdas make z3 give up)
+            seq = ex.to_iter(args[0], lineno)
+            bi = st.fresh_int("bi")
+            e = TStr.embed(st, seq.elem(bi))
+            oldn, olde = o.n, o.elems
+            ne = st.fresh_const("xel", olde.sort())
+            i = z3.Int("i!lx")
+            st.assume(_forall([i], z3.Implies(z3.And(0 <= i, i < oldn), ne[i] == olde[i]), patterns=[ne[i]]))
+            st.assume(_forall([i], z3.Implies(z3.And(oldn <= i, i < oldn + seq.n), ne[i] == z3.substitute(e, (bi, i - oldn))), patterns=[ne[i]]))
+            o.elems, o.n = ne, oldn + seq.n
+            ex.writeback(o)
+            new_term = NAME_LIST.dt.mk(o.n, o.elems)
+            k = z3.Const("k!lx", StrS)
+            st.assume(_forall([k], lset(new_term)[k] == z3.Or(lset(old_term)[k], z3.simplify(mb[k])), patterns=[lset(new_term)[k]]))
+            return None
         if name == "conv.is_continuous" and isinstance(recv, ConverterV):
-            return SV(is_continuous(recv.d, TStr.embed(st, args[0])), TBool)
+            return SV(is_continuous(recv.d, z3.BoolVal(recv.which == "in"), TStr.embed(st, args[0])), TBool)
         if name == "has_names" and isinstance(recv, Ref) and getattr(st.heap[recv.id], "grammar_of", None) is not None:
             # BaseGrammar.has_names(names) = set(self.keys()).issuperset(names)
             return ex.models.set_method(ex, recv, st.heap[recv.id], "issuperset", args, kwargs, lineno)
@@ -396,15 +439,15 @@ class GraphModels:
         k = z3.Const("k!an", t.sort())
         new = st.heap[TDict(t, TBool, ordered=True).fresh(st, "nodes").id]
         old_m, old_pos, old_n = nodes.member, nodes.pos, nodes.n
-        st.assume(z3.ForAll([k], new.member[k] == z3.Or(old_m[k], z3.Exists([i], z3.And(0 <= i, i < seq.n, at(i) == k)))))
-        st.assume(z3.ForAll([i], z3.Implies(z3.And(0 <= i, i < seq.n), new.member[at(i)]), patterns=[at(i)] if _pat_ok(at(i)) else []))
-        st.assume(z3.ForAll([k], z3.Implies(old_m[k], new.pos[k] == old_pos[k])))
+        st.assume(_forall([k], new.member[k] == z3.Or(old_m[k], z3.Exists([i], z3.And(0 <= i, i < seq.n, at(i) == k)))))
+        st.assume(_forall([i], z3.Implies(z3.And(0 <= i, i < seq.n), new.member[at(i)]), patterns=[at(i)] if _pat_ok(at(i)) else []))
+        st.assume(_forall([k], z3.Implies(old_m[k], new.pos[k] == old_pos[k])))
         st.assume(new.n >= old_n)
         st.assume(new.n <= old_n + seq.n)
         # duplicate-free iterable disjoint from the present nodes: appended in iteration order
-        distinct = z3.ForAll([i, j], z3.Implies(z3.And(0 <= i, i < j, j < seq.n), at(i) != at(j)))
-        disjoint = z3.ForAll([i], z3.Implies(z3.And(0 <= i, i < seq.n), z3.Not(old_m[at(i)])))
-        st.assume(z3.Implies(z3.And(distinct, disjoint), z3.And(new.n == old_n + seq.n, z3.ForAll([i], z3.Implies(z3.And(0 <= i, i < seq.n), new.keys[old_n + i] == at(i))))))
+        distinct = _forall([i, j], z3.Implies(z3.And(0 <= i, i < j, j < seq.n), at(i) != at(j)))
+        disjoint = _forall([i], z3.Implies(z3.And(0 <= i, i < seq.n), z3.Not(old_m[at(i)])))
+        st.assume(z3.Implies(z3.And(distinct, disjoint), z3.And(new.n == old_n + seq.n, _forall([i], z3.Implies(z3.And(0 <= i, i < seq.n), new.keys[old_n + i] == at(i))))))
         nodes.member, nodes.vals, nodes.n, nodes.keys, nodes.pos = new.member, new.vals, new.n, new.keys, new.pos
         nodes.is_empty_literal = False
 
@@ -425,15 +468,15 @@ class GraphModels:
         inl = z3.Lambda([k], z3.Exists([i], z3.And(0 <= i, i < ln_, elems[i] == k)))
         new = st.heap[TDict(t, TBool, ordered=True).fresh(st, "nodes").id]
         old_m, old_pos, old_n = nodes.member, nodes.pos, nodes.n
-        st.assume(z3.ForAll([k], new.member[k] == z3.And(old_m[k], z3.Not(inl[k]))))
-        st.assume(z3.ForAll([i], z3.Implies(z3.And(0 <= i, i < ln_), z3.Not(new.member[elems[i]])), patterns=[elems[i]]))
-        st.assume(z3.ForAll([k, k2], z3.Implies(z3.And(new.member[k], new.member[k2]), (new.pos[k] < new.pos[k2]) == (old_pos[k] < old_pos[k2]))))
+        st.assume(_forall([k], new.member[k] == z3.And(old_m[k], z3.Not(inl[k]))))
+        st.assume(_forall([i], z3.Implies(z3.And(0 <= i, i < ln_), z3.Not(new.member[elems[i]])), patterns=[elems[i]]))
+        st.assume(_forall([k, k2], z3.Implies(z3.And(new.member[k], new.member[k2]), (new.pos[k] < new.pos[k2]) == (old_pos[k] < old_pos[k2]))))
         st.assume(new.n <= old_n)
         st.assume(z3.Implies(z3.And(ln_ > 0, old_m[elems[0]]), new.n < old_n))
         e = o.fields["edge"].term
         u, v = z3.Consts("u!rm v!rm", t.sort())
         ne = st.fresh_const("edge", e.sort())
-        st.assume(z3.ForAll([u, v], ne[u][v] == z3.And(e[u][v], new.member[u], new.member[v]), patterns=[ne[u][v]]))
+        st.assume(_forall([u, v], ne[u][v] == z3.And(e[u][v], new.member[u], new.member[v]), patterns=[ne[u][v]]))
         o.fields["edge"] = SV(ne, o.fields["edge"].ty)
         if o.cls == NXC:
             f = o.fields
@@ -441,10 +484,10 @@ class GraphModels:
             rt, rs = f["rm_time"].term, f["rm_slot"].term
             nrt, nrs = st.fresh_const("rm_time", rt.sort()), st.fresh_const("rm_slot", rs.sort())
             removed_now = lambda c: z3.And(old_m[c], inl[c])  # noqa: E731
-            st.assume(z3.ForAll([k], nrt[k] == z3.If(removed_now(k), cnt, rt[k]), patterns=[nrt[k]]))
-            st.assume(z3.ForAll([k], z3.Implies(z3.Not(removed_now(k)), nrs[k] == rs[k]), patterns=[nrs[k]]))
+            st.assume(_forall([k], nrt[k] == z3.If(removed_now(k), cnt, rt[k]), patterns=[nrt[k]]))
+            st.assume(_forall([k], z3.Implies(z3.Not(removed_now(k)), nrs[k] == rs[k]), patterns=[nrs[k]]))
             # slot = index of the first occurrence in the batch
-            st.assume(z3.ForAll([i], z3.Implies(z3.And(0 <= i, i < ln_, old_m[elems[i]]), z3.And(nrt[elems[i]] == cnt, 0 <= nrs[elems[i]], nrs[elems[i]] <= i, elems[nrs[elems[i]]] == elems[i])),
+            st.assume(_forall([i], z3.Implies(z3.And(0 <= i, i < ln_, old_m[elems[i]]), z3.And(nrt[elems[i]] == cnt, 0 <= nrs[elems[i]], nrs[elems[i]] <= i, elems[nrs[elems[i]]] == elems[i])),
                                 patterns=[elems[i]]))
             f["rm_time"], f["rm_slot"] = SV(nrt, f["rm_time"].ty), SV(nrs, f["rm_slot"].ty)
             f["rm_batch"] = SV(z3.Store(f["rm_batch"].term, cnt, ILIST.dt.mk(ln_, elems)), f["rm_batch"].ty)
@@ -464,8 +507,8 @@ class GraphModels:
         i = z3.Int("i!ed")
         u, v = z3.Consts("u!ed v!ed", DiscS)
         st.assume(n >= 0)
-        st.assume(z3.ForAll([i], z3.Implies(z3.And(0 <= i, i < n), z3.And(e[eu[i]][ev[i]], epos[eu[i]][ev[i]] == i)), patterns=[eu[i]]))
-        st.assume(z3.ForAll([u, v], z3.Implies(e[u][v], z3.And(0 <= epos[u][v], epos[u][v] < n, eu[epos[u][v]] == u, ev[epos[u][v]] == v)), patterns=[epos[u][v]]))
+        st.assume(_forall([i], z3.Implies(z3.And(0 <= i, i < n), z3.And(e[eu[i]][ev[i]], epos[eu[i]][ev[i]] == i)), patterns=[eu[i]]))
+        st.assume(_forall([u, v], z3.Implies(e[u][v], z3.And(0 <= epos[u][v], epos[u][v] < n, eu[epos[u][v]] == u, ev[epos[u][v]] == v)), patterns=[epos[u][v]] + ([e[u][v]] if _pat_ok(e[u][v]) else [])))
         io = o.fields["io"].term
         if data == "io":
             seq = IterV(n, lambda j: (SV(eu[j], TDisc), SV(ev[j], TDisc), NAMES.project(st, io[eu[j]][ev[j]])))
@@ -517,7 +560,7 @@ class GraphModels:
             raise PyRaise("ValueError", lineno)
         which = z3.BoolVal(inputs)
         sel = z3.Lambda([k], z3.If(lst.n != 0, inl[k], names[k]))
-        new = z3.Lambda([k], z3.Or(cur[d][k], z3.And(sel[k], is_continuous(d, k))))
+        new = z3.Lambda([k], z3.Or(cur[d][k], z3.And(sel[k], is_continuous(d, which, k))))
         st.ghost_set(gname, z3.Store(cur, d, new))
         ex.assumed.add("opaque disciplines: add_differentiated_inputs/outputs acts on the ghost map of differentiated names as its verified contract states")
         return None
@@ -537,6 +580,16 @@ class GraphModels:
             return self._edge_bfs(ex, args[0], kwargs.get("source", args[1] if len(args) > 1 else None), lineno)
         if name == "sorted" and len(args) == 1 and not kwargs:
             return self._sorted_ints(ex, args[0], lineno)
+        if name == "set" and len(args) == 1 and isinstance(args[0], Ref) and isinstance(st.heap[args[0].id], ListObj):
+            lo = st.heap[args[0].id]
+            org = lo.origin
+            if lo.t == TStr and not lo.is_empty_literal and org is not None and isinstance(org[2], tuple) and org[2][0] == "tuple":
+                # set(list of names held in a selection mapping): membership through lset (defined by lset_definition) instead of a lambda
+                o = SetObj(TStr, lset(NAME_LIST.dt.mk(lo.n, lo.elems)), st.fresh_int("setn"))
+                for f in o.wf_facts(st):
+                    st.assume(f)
+                st.assume(o.n <= lo.n)
+                return st.alloc(o)
         if name == "set" and len(args) == 1:
             from .models import DictView
 
@@ -552,6 +605,16 @@ class GraphModels:
                     st.assume(f)
                 st.assume(o.n <= d.n)
                 return st.alloc(o)
+        if name == "list" and len(args) == 1 and not kwargs and isinstance(args[0], Ref) and isinstance(st.heap[args[0].id], SetObj) \
+                and st.heap[args[0].id].k == TStr and not st.heap[args[0].id].is_empty_literal:
+            # list(set of names): the base model (an enumeration), plus the (derivable) fact on the set of elements
+            src = st.heap[args[0].id]
+            res = ex.models._list_from_iter(ex, ex.to_iter(args[0], lineno), args[0])
+            ro = st.heap[res.id]
+            k = z3.Const("k!lx", StrS)
+            t = NAME_LIST.dt.mk(ro.n, ro.elems)
+            st.assume(_forall([k], lset(t)[k] == src.member[k], patterns=[lset(t)[k]]))
+            return res
         if name == "itertools.chain":
             return self._chain(ex, args, lineno)
         if name == "filter" and len(args) == 2:
@@ -577,15 +640,15 @@ class GraphModels:
         i, j = z3.Ints("i!so j!so")
         k = z3.Const("k!so", kt.sort())
         st.assume(ro.n == seq.n)
-        st.assume(z3.ForAll([i], z3.Implies(z3.And(0 <= i, i < ro.n), mem[ro.elems[i]]), patterns=[ro.elems[i]]))
+        st.assume(_forall([i], z3.Implies(z3.And(0 <= i, i < ro.n), mem[ro.elems[i]]), patterns=[ro.elems[i]]))
         spos = st.fresh_const("sortpos", z3.ArraySort(I, I))
-        st.assume(z3.ForAll([k], z3.Implies(mem[k], z3.And(0 <= spos[k], spos[k] < ro.n, ro.elems[spos[k]] == k)), patterns=[spos[k]] + ([mem[k]] if _pat_ok(mem[k]) else [])))
+        st.assume(_forall([k], z3.Implies(mem[k], z3.And(0 <= spos[k], spos[k] < ro.n, ro.elems[spos[k]] == k)), patterns=[spos[k]] + ([mem[k]] if _pat_ok(mem[k]) else [])))
         srco = st.heap[src.id] if isinstance(src, Ref) else (st.heap[src.ref.id] if isinstance(src, DictView) and src.kind == "keys" else None)
         if isinstance(srco, (SetObj, DictObj)):
             # distinct elements: strictly increasing
-            st.assume(z3.ForAll([i, j], z3.Implies(z3.And(0 <= i, i < j, j < ro.n), ro.elems[i] < ro.elems[j]), patterns=[z3.MultiPattern(ro.elems[i], ro.elems[j])]))
+            st.assume(_forall([i, j], z3.Implies(z3.And(0 <= i, i < j, j < ro.n), ro.elems[i] < ro.elems[j]), patterns=[z3.MultiPattern(ro.elems[i], ro.elems[j])]))
         else:
-            st.assume(z3.ForAll([i, j], z3.Implies(z3.And(0 <= i, i < j, j < ro.n), ro.elems[i] <= ro.elems[j]), patterns=[z3.MultiPattern(ro.elems[i], ro.elems[j])]))
+            st.assume(_forall([i, j], z3.Implies(z3.And(0 <= i, i < j, j < ro.n), ro.elems[i] <= ro.elems[j]), patterns=[z3.MultiPattern(ro.elems[i], ro.elems[j])]))
         ex.assumed.add("model:sorted(int): sorted permutation")
         return res
 
@@ -643,15 +706,15 @@ class GraphModels:
         for f in reach_axioms(E):
             st.assume(f)
         # partition: every node in exactly one class (cls_of), classes contain only nodes
-        st.assume(z3.ForAll([u], z3.Implies(nodes.member[u], z3.And(0 <= cls_of[u], cls_of[u] < ro.n, mem(cls_of[u])[u])), patterns=[cls_of[u]] + ([nodes.member[u]] if _pat_ok(nodes.member[u]) else [])))
-        st.assume(z3.ForAll([i], z3.Implies(z3.And(0 <= i, i < ro.n), SS.dt.accessor(0, 1)(ro.elems[i]) >= 1), patterns=[ro.elems[i]]))
-        st.assume(z3.ForAll([i, u], z3.Implies(z3.And(0 <= i, i < ro.n), mem(i)[u] == z3.And(nodes.member[u], cls_of[u] == i)), patterns=[mem(i)[u]]))
+        st.assume(_forall([u], z3.Implies(nodes.member[u], z3.And(0 <= cls_of[u], cls_of[u] < ro.n, mem(cls_of[u])[u])), patterns=[cls_of[u]] + ([nodes.member[u]] if _pat_ok(nodes.member[u]) else [])))
+        st.assume(_forall([i], z3.Implies(z3.And(0 <= i, i < ro.n), SS.dt.accessor(0, 1)(ro.elems[i]) >= 1), patterns=[ro.elems[i]]))
+        st.assume(_forall([i, u], z3.Implies(z3.And(0 <= i, i < ro.n), mem(i)[u] == z3.And(nodes.member[u], cls_of[u] == i)), patterns=[mem(i)[u]]))
         # classes are the classes of mutual reachability
-        st.assume(z3.ForAll([u, v], z3.Implies(z3.And(nodes.member[u], nodes.member[v]), (cls_of[u] == cls_of[v]) == z3.And(reach(E, u, v), reach(E, v, u))),
+        st.assume(_forall([u, v], z3.Implies(z3.And(nodes.member[u], nodes.member[v]), (cls_of[u] == cls_of[v]) == z3.And(reach(E, u, v), reach(E, v, u))),
                             patterns=[z3.MultiPattern(cls_of[u], cls_of[v])]))
         # no empty class
         wit = st.fresh_const("scc_wit", z3.ArraySort(I, DiscS))
-        st.assume(z3.ForAll([i], z3.Implies(z3.And(0 <= i, i < ro.n), z3.And(nodes.member[wit[i]], cls_of[wit[i]] == i)), patterns=[wit[i]]))
+        st.assume(_forall([i], z3.Implies(z3.And(0 <= i, i < ro.n), z3.And(nodes.member[wit[i]], cls_of[wit[i]] == i)), patterns=[wit[i]]))
         ex.assumed.add("networkx.strongly_connected_components: returns the partition of the nodes into classes of mutual reachability (assumed)")
         res_obj = st.heap[res.id]
         res_obj.scc_of = cls_of
@@ -672,39 +735,39 @@ class GraphModels:
         # applicability of the assumed contract: `scc` is a partition of the nodes into duplicate-free lists
         comp_of = st.fresh_const("comp_of", z3.ArraySort(DiscS, I))
         midx = st.fresh_const("member_idx", z3.ArraySort(DiscS, I))
-        ex.check(z3.ForAll([i, p], z3.Implies(z3.And(0 <= i, i < m, 0 <= p, p < ln(comp(i))), nodes.member[le(comp(i), p)])), "pre", "condensation:scc-members-are-nodes", lineno, aux=True)
-        ex.check(z3.ForAll([i, j, p, q], z3.Implies(z3.And(0 <= i, i < m, 0 <= j, j < m, 0 <= p, p < ln(comp(i)), 0 <= q, q < ln(comp(j)), le(comp(i), p) == le(comp(j), q)),
+        ex.check(_forall([i, p], z3.Implies(z3.And(0 <= i, i < m, 0 <= p, p < ln(comp(i))), nodes.member[le(comp(i), p)])), "pre", "condensation:scc-members-are-nodes", lineno, aux=True)
+        ex.check(_forall([i, j, p, q], z3.Implies(z3.And(0 <= i, i < m, 0 <= j, j < m, 0 <= p, p < ln(comp(i)), 0 <= q, q < ln(comp(j)), le(comp(i), p) == le(comp(j), q)),
                                                      z3.And(i == j, p == q))), "pre", "condensation:scc-disjoint-duplicate-free", lineno, aux=True)
         cover = st.fresh_const("cover_c", z3.ArraySort(DiscS, I))
         cover_p = st.fresh_const("cover_p", z3.ArraySort(DiscS, I))
-        ex.check(z3.ForAll([u], z3.Implies(nodes.member[u], z3.Exists([i, p], z3.And(0 <= i, i < m, 0 <= p, p < ln(comp(i)), le(comp(i), p) == u)))),
+        ex.check(_forall([u], z3.Implies(nodes.member[u], z3.Exists([i, p], z3.And(0 <= i, i < m, 0 <= p, p < ln(comp(i)), le(comp(i), p) == u)))),
                  "pre", "condensation:scc-covers-nodes", lineno, aux=True)
         c = new_graph(ex, NXC)
         co = st.heap[c.id]
         cn = _nodes(ex, co)
         new = st.heap[TDict(TInt, TBool, ordered=True).fresh(st, "cnodes").id]
         st.assume(new.n == m)
-        st.assume(z3.ForAll([i], new.member[i] == z3.And(0 <= i, i < m)))
-        st.assume(z3.ForAll([i], z3.Implies(z3.And(0 <= i, i < m), z3.And(new.keys[i] == i, new.pos[i] == i))))
+        st.assume(_forall([i], new.member[i] == z3.And(0 <= i, i < m)))
+        st.assume(_forall([i], z3.Implies(z3.And(0 <= i, i < m), z3.And(new.keys[i] == i, new.pos[i] == i))))
         cn.member, cn.vals, cn.n, cn.keys, cn.pos = new.member, new.vals, new.n, new.keys, new.pos
         cn.is_empty_literal = False
         ce = st.fresh_const("cedge", REL_I)
         # mapping / member index (functions of the partition)
-        st.assume(z3.ForAll([u], z3.Implies(nodes.member[u], z3.And(0 <= comp_of[u], comp_of[u] < m, 0 <= midx[u], midx[u] < ln(comp(comp_of[u])), le(comp(comp_of[u]), midx[u]) == u)),
+        st.assume(_forall([u], z3.Implies(nodes.member[u], z3.And(0 <= comp_of[u], comp_of[u] < m, 0 <= midx[u], midx[u] < ln(comp(comp_of[u])), le(comp(comp_of[u]), midx[u]) == u)),
                             patterns=[comp_of[u]]))
-        st.assume(z3.ForAll([i, p], z3.Implies(z3.And(0 <= i, i < m, 0 <= p, p < ln(comp(i))), z3.And(comp_of[le(comp(i), p)] == i, midx[le(comp(i), p)] == p)),
+        st.assume(_forall([i, p], z3.Implies(z3.And(0 <= i, i < m, 0 <= p, p < ln(comp(i))), z3.And(comp_of[le(comp(i), p)] == i, midx[le(comp(i), p)] == p)),
                             patterns=[le(comp(i), p)]))
         # an edge a -> b iff a != b and some member edge crosses
-        st.assume(z3.ForAll([u, v], z3.Implies(z3.And(nodes.member[u], nodes.member[v], E[u][v], comp_of[u] != comp_of[v]), ce[comp_of[u]][comp_of[v]]),
+        st.assume(_forall([u, v], z3.Implies(z3.And(nodes.member[u], nodes.member[v], E[u][v], comp_of[u] != comp_of[v]), ce[comp_of[u]][comp_of[v]]),
                             patterns=[z3.MultiPattern(E[u][v], comp_of[u], comp_of[v])]))
         eu = st.fresh_const("cwit_u", z3.ArraySort(I, z3.ArraySort(I, DiscS)))
         ev = st.fresh_const("cwit_v", z3.ArraySort(I, z3.ArraySort(I, DiscS)))
-        st.assume(z3.ForAll([i, j], z3.Implies(ce[i][j], z3.And(0 <= i, i < m, 0 <= j, j < m, i != j, nodes.member[eu[i][j]], nodes.member[ev[i][j]], comp_of[eu[i][j]] == i,
+        st.assume(_forall([i, j], z3.Implies(ce[i][j], z3.And(0 <= i, i < m, 0 <= j, j < m, i != j, nodes.member[eu[i][j]], nodes.member[ev[i][j]], comp_of[eu[i][j]] == i,
                                                                 comp_of[ev[i][j]] == j, E[eu[i][j]][ev[i][j]])), patterns=[ce[i][j]]))
         # acyclic: a topological rank exists
         rank = st.fresh_const("rank", z3.ArraySort(I, I))
-        st.assume(z3.ForAll([i, j], z3.Implies(ce[i][j], rank[i] > rank[j]), patterns=[ce[i][j]]))
-        st.assume(z3.ForAll([i], rank[i] >= 0, patterns=[rank[i]]))
+        st.assume(_forall([i, j], z3.Implies(ce[i][j], rank[i] > rank[j]), patterns=[ce[i][j]]))
+        st.assume(_forall([i], rank[i] >= 0, patterns=[rank[i]]))
         F = COND_FIELDS
         co.fields.update({
             "edge": SV(ce, F["edge"]), "edge0": SV(ce, F["edge0"]), "n0": SV(m, TInt),
@@ -738,11 +801,16 @@ class GraphModels:
         bpos = st.fresh_const("bpos", z3.ArraySort(DiscS, z3.ArraySort(DiscS, I)))
         i = z3.Int("i!bfs")
         st.assume(n >= 0)
-        st.assume(z3.ForAll([i], z3.Implies(z3.And(0 <= i, i < n), z3.And(edge(eu[i], ev[i]), rch(eu[i]), nodes.member[eu[i]], nodes.member[ev[i]], bpos[eu[i]][ev[i]] == i)), patterns=[eu[i]]))
-        st.assume(z3.ForAll([u, v], z3.Implies(z3.And(edge(u, v), rch(u), nodes.member[u], nodes.member[v]), z3.And(0 <= bpos[u][v], bpos[u][v] < n, eu[bpos[u][v]] == u, ev[bpos[u][v]] == v)),
-                            patterns=[bpos[u][v]]))
+        st.assume(_forall([i], z3.Implies(z3.And(0 <= i, i < n), z3.And(edge(eu[i], ev[i]), rch(eu[i]), nodes.member[eu[i]], nodes.member[ev[i]], bpos[eu[i]][ev[i]] == i)), patterns=[eu[i]]))
+        st.assume(_forall([u, v], z3.Implies(z3.And(edge(u, v), rch(u), nodes.member[u], nodes.member[v]), z3.And(0 <= bpos[u][v], bpos[u][v] < n, eu[bpos[u][v]] == u, ev[bpos[u][v]] == v)),
+                            patterns=[bpos[u][v]] + ([edge(u, v)] if _pat_ok(edge(u, v)) else [])))
         ex.assumed.add("networkx.edge_bfs(G, source): enumerates exactly the edges whose tail is reachable from the source, each once (assumed)")
-        seq = IterV(n, lambda j: (SV(eu[j], TDisc), SV(ev[j], TDisc)))
+        def elem(j):
+            # ground instance of the enumeration axiom for the element that is read
+            st.assume(z3.Implies(z3.And(0 <= j, j < n), z3.And(edge(eu[j], ev[j]), rch(eu[j]), nodes.member[eu[j]], nodes.member[ev[j]], bpos[eu[j]][ev[j]] == j)))
+            return (SV(eu[j], TDisc), SV(ev[j], TDisc))
+
+        seq = IterV(n, elem)
         seq.eu, seq.ev, seq.bpos = eu, ev, bpos
         return seq
 
